@@ -12,6 +12,7 @@
 import Rl2tp.Proofs.SpecMsg
 import Rl2tp.Proofs.SpecBridge
 import Rl2tp.Proofs.Utf8
+import Rl2tp.Proofs.NonInterference
 namespace Rl2tp.C05
 open Spec
 
@@ -59,6 +60,55 @@ theorem flag_masks (x y : UInt8) :
 theorem decodeAvps_eq_spec (b : Bytes) :
     ∃ rs r, (greedy : M Bytes DErr (List Res)) b = .ok rs r ∧ rs.map viewRes = Spec.avps (b.length + 1) b :=
   greedy_view b
+
+/-! ### "nothing outside the fields the specification names influences the result"
+
+By `decode_eq_spec` / `decodeAvps_eq_spec` the decoder's answer *is* the specification's, so what the specification does
+not read the decoder cannot depend on.  The cases a reader asks about, one by one (those about what lies behind the
+declared length are C08's `suffix_irrelevant`; the flag bits of the message header are C14's `bits_irrelevant`; 1…5
+stray octets behind the last AVP are C15's `body_results_junk`): -/
+
+/-- the M bit and the four reserved bits of an AVP's first octet: two record lists that differ only there are decoded
+    to the same values, record by record (the two length bits and the H bit are the only ones read) -/
+theorem avp_flag_bits_irrelevant (a a' : UInt8) (t : Bytes)
+    (h1 : a.toNat / 64 = a'.toNat / 64) (h2 : a.toNat / 2 % 2 = a'.toNat / 2 % 2) :
+    ∃ rs rs' r r', (greedy : M Bytes DErr (List Res)) (a :: t) = .ok rs r ∧
+      (greedy : M Bytes DErr (List Res)) (a' :: t) = .ok rs' r' ∧ rs.map viewRes = rs'.map viewRes := by
+  obtain ⟨rs, r, h, hv⟩ := greedy_view (a :: t)
+  obtain ⟨rs', r', h', hv'⟩ := greedy_view (a' :: t)
+  refine ⟨rs, rs', r, r', h, h', ?_⟩
+  rw [hv, hv']
+  exact avps_flag_bits_irrelevant _ a a' t h1 h2
+
+/-- octets behind a fixed-width value are not part of it: for the 24 kinds whose format is a fixed number of octets,
+    a payload with anything appended decodes to the same value -/
+theorem surplus_octets_irrelevant (t : UInt16) (n : Nat) (hw : fixedWidth t.toNat = some n) (p x : Bytes) (hp : n ≤ p.length) :
+    viewAvp ((decodeAvp t : M Bytes DErr AVP) (p ++ x)) = viewAvp ((decodeAvp t : M Bytes DErr AVP) p) := by
+  rw [decodeAvp_view, decodeAvp_view]
+  exact surplus_ignored t n hw p x hp
+
+/-- the reserved octets inside Proxy Authen ID, Call Errors and ACCM are not read -/
+theorem reserved_octets_irrelevant (t : UInt16) (r r' s s' : UInt8) (q : Bytes) :
+    (t.toNat = 32 → viewAvp ((decodeAvp t : M Bytes DErr AVP) (r :: q)) = viewAvp ((decodeAvp t : M Bytes DErr AVP) (r' :: q))) ∧
+    (t.toNat = 34 → viewAvp ((decodeAvp t : M Bytes DErr AVP) (r :: s :: q)) =
+      viewAvp ((decodeAvp t : M Bytes DErr AVP) (r' :: s' :: q))) ∧
+    (t.toNat = 35 → viewAvp ((decodeAvp t : M Bytes DErr AVP) (r :: s :: q)) =
+      viewAvp ((decodeAvp t : M Bytes DErr AVP) (r' :: s' :: q))) := by
+  simp only [decodeAvp_view]
+  exact reserved_octets_ignored t r r' s s' q
+
+/-- the value octets of a vendor-specific AVP (in the specification's reading of a record list) -/
+theorem vendor_value_irrelevant (fuel : Nat) (a b c d e f : UInt8) (p p' rest : Bytes)
+    (hv : word16 c d ≠ 0) (hl : p.length = p'.length)
+    (hlen : avpLen (a :: b :: c :: d :: e :: f :: (p ++ rest)) = 6 + p.length) :
+    Spec.avps fuel (a :: b :: c :: d :: e :: f :: (p ++ rest)) = Spec.avps fuel (a :: b :: c :: d :: e :: f :: (p' ++ rest)) :=
+  avps_vendor_value_irrelevant fuel a b c d e f p p' rest hv hl hlen
+
+/-- the pad octets of a data message's offset field: skipped, never read -/
+theorem offset_pad_octets_irrelevant (x : UInt8) (h pad pad' rest : Bytes) (hO : bitO x = true)
+    (hh : h.length = headerSize x) (hp : pad.length = (u16At h (headerSize x - 2)).toNat) (hp' : pad'.length = pad.length) :
+    Spec.dataMessage x (h ++ pad ++ rest) = Spec.dataMessage x (h ++ pad' ++ rest) :=
+  offset_pad_irrelevant x h pad pad' rest hO hh hp hp'
 
 /-- each of the 39 payload decoders against its row of the format table, for all 65 536 attribute
     types and every payload -/
